@@ -7,7 +7,7 @@ use crate::fw::{Ctx, Plan, Prop, Tier, guard, panic_site, sec, sec_ex};
 use crate::hast::{ScopeErr, canon_holes, reassociate, resolve};
 use crate::parser::parse;
 use crate::props::c14::{enum_seq, grammar_kinds, make_tokens};
-use crate::rgram::{Chart, Grammar, random_sentence, tree_to_h};
+use crate::rgram::{Chart, Grammar, confused_sentence, random_sentence, tree_to_h};
 use crate::rtok::{self, TK};
 use crate::util::{Json, Rng, clip, hash_str};
 use std::sync::OnceLock;
@@ -171,7 +171,8 @@ pub fn check_source(ctx: &mut Ctx, src: &str, tag: &str) {
 // Systematic chain x parenthesisation matrix (the configuration that exposes flattening faults).
 fn chain_case(idx: u64) -> Option<(Vec<TK>, Vec<String>)> {
     // classes: 0 app, 1 mul/div, 2 add/sub
-    let mut i = idx;
+    let context = idx / chain_total_plain();
+    let mut i = idx % chain_total_plain();
     for class in 0..3u32 {
         let opset: &[Option<TK>] = match class {
             0 => &[None],
@@ -249,6 +250,7 @@ fn chain_case(idx: u64) -> Option<(Vec<TK>, Vec<String>)> {
                     }
                 }
             }
+            let kinds = embed_chain(kinds, context);
             let texts = default_texts(&kinds);
             return Some((kinds, texts));
         }
@@ -256,7 +258,67 @@ fn chain_case(idx: u64) -> Option<(Vec<TK>, Vec<String>)> {
     None
 }
 
+// The chain alone, or inside a construct whose re-association passes have to descend into it.
+fn embed_chain(chain: Vec<TK>, context: u64) -> Vec<TK> {
+    let paren = |mut v: Vec<TK>| {
+        v.insert(0, TK::LeftParen);
+        v.push(TK::RightParen);
+        v
+    };
+    let mut out = vec![];
+    match context {
+        0 => return chain,
+        1 => {
+            // let annotation
+            out.extend([TK::Identifier, TK::Colon]);
+            out.extend(paren(chain));
+            out.extend([TK::Equals, TK::IntegerLiteral, TK::Semi, TK::IntegerLiteral]);
+        }
+        2 => {
+            // lambda domain
+            out.extend([TK::LeftParen, TK::Identifier, TK::Colon]);
+            out.extend(chain);
+            out.extend([TK::RightParen, TK::ThickArrow, TK::IntegerLiteral]);
+        }
+        3 => {
+            // condition and else branch
+            out.push(TK::If);
+            out.extend(chain.clone());
+            out.extend([TK::Then, TK::IntegerLiteral, TK::Else]);
+            out.extend(chain);
+        }
+        4 => {
+            // definition and body of a group
+            out.extend([TK::Identifier, TK::Equals]);
+            out.extend(chain.clone());
+            out.push(TK::Semi);
+            out.extend(chain);
+        }
+        5 => {
+            // pi domain and negation
+            out.extend([TK::LeftCurly, TK::Identifier, TK::Colon]);
+            out.extend(chain.clone());
+            out.extend([TK::RightCurly, TK::ThinArrow, TK::Minus]);
+            out.extend(paren(chain));
+        }
+        _ => {
+            // operand of a comparison and argument of an application
+            out.extend(chain.clone());
+            out.push(TK::LessThanOrEqualTo);
+            out.extend([TK::IntegerLiteral]);
+            out.extend(paren(chain));
+        }
+    }
+    out
+}
+
+const CHAIN_CONTEXTS: u64 = 7;
+
 fn chain_total() -> u64 {
+    chain_total_plain() * CHAIN_CONTEXTS
+}
+
+fn chain_total_plain() -> u64 {
     let mut t = 0;
     for opn in [1u64, 2, 2] {
         for nops in 2..=4u32 {
@@ -304,8 +366,9 @@ impl Prop for C07P {
                 sec_ex("chain-parenthesisation-matrix", chain_total()),
                 sec("random-sentences", tier.pick(12_000, 250_000)),
                 sec("sentence-mutants", tier.pick(4_000, 80_000)),
+                sec("level-confusion-sentences", tier.pick(20_000, 400_000)),
             ],
-            "every token sequence of <=4 (quick) / <=5 (thorough) tokens over the 28 terminals of grammar.y (identifiers spelled `_`); every chain of 2-4 operands of application, * /, + - with each operand in 6 parenthesisation forms; random sentences derived from grammar.y (3-80 tokens, variables drawn from an initial context, distinct literals) and their single-token deletions/insertions/substitutions; each judged by an independent chart parser that reads grammar.y: accept/reject, number of derivations, and the left-associated tree; non-trivial = distinct sentence accepted by the reference",
+            "every token sequence of <=4 (quick) / <=5 (thorough) tokens over the 28 terminals of grammar.y (identifiers spelled `_`); every chain of 2-4 operands of application, * /, + - with each operand in 6 parenthesisation forms, alone and embedded in 6 enclosing constructs (let annotation, lambda domain, condition and branch, definition and body, implicit-pi domain and negation, comparison operand and application argument); near-sentences in which one nonterminal was expanded at the wrong precedence level; random sentences derived from grammar.y (3-80 tokens, variables drawn from an initial context, distinct literals) and their single-token deletions/insertions/substitutions; each judged by an independent chart parser that reads grammar.y: accept/reject, number of derivations, and the left-associated tree; non-trivial = distinct sentence accepted by the reference",
         );
         p.assumptions = vec![
             "the AST of a derivation is the table of DESIGN.md A.3; a parenthesised definition group in body position is compared modulo gram's merge into the enclosing group (DESIGN.md C07 L)".into(),
@@ -342,6 +405,21 @@ impl Prop for C07P {
                 if let Some((kinds, texts)) = chain_case(idx) {
                     check_sequence(ctx, &kinds, &texts, &[], "chain");
                 }
+            }
+            "level-confusion-sentences" => {
+                let Ok(g) = grammar() else {
+                    ctx.inconclusive("grammar-unreadable");
+                    return;
+                };
+                let mut r = Rng::for_case(ctx.seed, 6, idx);
+                let budget = 3 + r.usize(22);
+                let s = confused_sentence(g, &mut r, budget);
+                if s.kinds.len() > 70 || s.kinds.is_empty() {
+                    return;
+                }
+                // binder flags are unreliable here: every identifier is `_`
+                let texts = default_texts(&s.kinds);
+                check_sequence(ctx, &s.kinds, &texts, &[], "confused");
             }
             "random-sentences" | "sentence-mutants" => {
                 let Ok(g) = grammar() else {
